@@ -48,3 +48,10 @@ print(st)
 print("never accepted:", sorted(k for k, (a, b) in ops.items() if a == 0), "never proposed:", sorted(set(session.PROPOSERS) - set(ops)))
 for k, n in sorted(c.items()): print(n, k, "seed", ex[k][0], "::", ex[k][1][:260])
 print("known:", dict(kn))
+pr = Counter()
+for r in recs:
+    if r["status"] == "ok":
+        for k, v in r["result"]["probes"].items():
+            if k.startswith("soft_") or k.startswith("probe_"):
+                pr[k] += v
+print("soft probes:", dict(pr))
